@@ -20,6 +20,10 @@ pub struct CountingWatchdog {
     pub polls: Cell<u64>,
     pub stop_at: Option<u64>,
     pub interval: usize,
+    /// Only for step-budget use: also answer stop once this instant has passed. Work between two polls can grow
+    /// without bound when a loop that should have ended does not (every round doubles the evidence), so a budget
+    /// counted in polls alone may never be reached; the deadline turns that into the same verdict (`over budget`).
+    pub deadline: Cell<Option<std::time::Instant>>,
 }
 impl CountingWatchdog {
     pub fn new(interval: usize, stop_at: Option<u64>) -> Rc<Self> {
@@ -27,13 +31,24 @@ impl CountingWatchdog {
             polls: Cell::new(0),
             stop_at,
             interval,
+            deadline: Cell::new(None),
         })
+    }
+    pub fn with_deadline(interval: usize, stop_at: Option<u64>, seconds: u64) -> Rc<Self> {
+        let w = Self::new(interval, stop_at);
+        w.deadline.set(Some(std::time::Instant::now() + std::time::Duration::from_secs(seconds)));
+        w
     }
 }
 impl Watchdog for CountingWatchdog {
     fn should_stop(&self) -> bool {
         let k = self.polls.get();
         self.polls.set(k + 1);
+        if let Some(d) = self.deadline.get() {
+            if std::time::Instant::now() >= d {
+                return true;
+            }
+        }
         matches!(self.stop_at, Some(s) if k >= s)
     }
     fn poll_every(&self) -> usize {
